@@ -257,6 +257,11 @@ ABTU_ret_err static inline int ABTI_ktable_set(ABTI_global *p_global,
                     ABTD_atomic_pause();
                     p_ktable = ABTD_atomic_acquire_load_ptr(pp_ktable);
                 }
+                if (p_ktable == NULL) {
+                    /* The one that locked it failed to allocate a table and
+                     * put NULL back.  Try once more. */
+                    continue;
+                }
                 /* p_ktable has been allocated by another. */
                 break;
             }
